@@ -360,6 +360,14 @@ func (c ConstReference) Link(scope Scope, t TypeSpec) (ConstantValue, error) {
 	if t == c.Target.Type {
 		return c, nil
 	}
+
+	// The value of the target is cast to a different type. If that needs the
+	// value of the target again, the target is defined in terms of itself.
+	if c.Target.linkingValue {
+		return nil, constantCycleError{Name: c.Target.Name}
+	}
+	c.Target.linkingValue = true
+	defer func() { c.Target.linkingValue = false }()
 	return c.Target.Value.Link(scope, t)
 }
 
